@@ -921,6 +921,7 @@ var reNum = regexp.MustCompile(`0x[0-9a-f]+|\b\d+\b`)
 func TestCheck(t *testing.T) {
 	r := mon.Start(t, "C16")
 	defer r.Finish()
+	r.SpinWatch(memwire.BytesMoved)
 	r.Note("rule", "four families of meek_lite connections, each in its own synctest bubble against a scripted in-memory HTTP/1.1 server: "+
 		"stream = grid of 5 write-script kinds (tiny 1-100 B x 1-40 writes; size menu 1..65537; big up to 3x65536+1; bursts of 17-40 back-to-back writes; sums of exactly 65536) x 6 response patterns (empty, 1 B x K, 65536 x K, alternating, PRNG sizes, 2-64 B x K) with gaps from {0,1ms,99ms,101ms,6s}, think times 0-10 s, chunked/split responses, Connection: close redials, reader chunk policies, slow readers, with/without front; "+
 		"close = 12-write script x Close at each of the 13 points x 5 ways (writer itself, third goroutine at the same virtual instant, server on request headers, server while thinking, server between two pieces of the response); "+
@@ -928,6 +929,27 @@ func TestCheck(t *testing.T) {
 		"Every connection ends with Close and the after-Close observations. Random dimensions come from the per-connection sub-seed. Non-trivial = at least one request reached the server; distinct = distinct (family, sub-seed).")
 	r.Note("exhaustive_part", "close family: every (close point 0..12) x (5 close mechanisms) cell is visited in both tiers; non200: every (run length, status) cell; fault: every (kind, request number) cell")
 	r.Note("not_judged", "behaviour under non-200 answers and transport faults beyond 'Read never returns bytes that are not the 200-response stream' (recorded: retries, whether the connection failed); the Host header / dial address under front (recorded); the number of requests after Close (recorded; judged: finite, and at most 100 - the original's select picks at random among ready cases, so a handful can follow); data a Read returns after Close (accepted if it is the right stream data); whether written-but-unsent data is flushed by Close (prefix only); equality of session ids across connections (recorded as distinct count)")
+
+	// ---- family several connections alive at once (multi_test.go)
+	r.Note("several_connections", "additional family: 2..4 meek_lite connections alive at the same time in one bubble, opened one after the other while the earlier ones keep writing and polling, each against its own scripted server with its own PRF streams and the same per-connection oracles")
+	for g := 0; g < r.Pick(8, 100); g++ {
+		g := g
+		r.Case(fmt.Sprintf("several-connections/%03d", g), func(c *mon.Case) {
+			c.T.Run("multi", func(t *testing.T) {
+				defer func() {
+					if e := recover(); e != nil {
+						msg := fmt.Sprint(e)
+						if strings.HasPrefix(msg, "deadlock:") {
+							c.Violation("wedge/goroutines-still-blocked-at-the-end", msg+"; several connections", nil)
+						} else {
+							c.Violation("panic/"+reNum.ReplaceAllString(msg, "N"), msg+"\n"+string(debug.Stack()), nil)
+						}
+					}
+				}()
+				synctest.Test(t, func(*testing.T) { multiConns(c, r, 2+g%3, r.Sub("multi", g)) })
+			})
+		})
+	}
 
 	// ---- family stream
 	nBatch := r.Pick(1, 4)
